@@ -196,4 +196,82 @@ Section Source.
     gen_sample NN (h_min NN h) (h_max NN h) v step g = sample NN h v step g.
   Proof. reflexivity. Qed.
 
+
+  (* ---- optimise_state as a whole: the model's run and outcome are the translated pieces put together - the start
+     (gen_init, gen_init_count, gen_loops), one proposal (gen_mc_step), the end of an inner loop after gen_inner_count
+     proposals (gen_end_loop, gen_loop_head), the final assertion (gen_final_ok) *)
+  Variable score : N -> list T -> option T.
+
+  Definition src_mc_step (c : cfg NN) (st : ost NN) (d : draw NN) : ost NN :=
+    match gen_mc_step NN fexp score c (mkWorld (params NN st) (handles NN st) (calls NN st))
+                      (score_cur NN st) (kt NN st) (ratio NN st) (loop_rej NN st) d with
+    | None => mkOst (params NN st) (handles NN st) (score_cur NN st) (kt NN st) (ratio NN st)
+                    (conv_count NN st) (loop_rej NN st) (score_start NN st) (loops_done NN st)
+                    (j NN st) (calls NN st) true false true
+    | Some (w, sc, rej) =>
+        mkOst (w_params NN w) (w_handles NN w) sc (kt NN st) (ratio NN st) (conv_count NN st) rej
+              (score_start NN st) (loops_done NN st) (N.succ (j NN st)) (w_calls NN w) false false false
+    end.
+
+  Definition src_end_loop (c : cfg NN) (st : ost NN) : ost NN :=
+    let r := gen_end_loop NN c (score_cur NN st) (score_start NN st) (kt NN st) (conv_count NN st) (ratio NN st) (loop_rej NN st) in
+    let hd := gen_loop_head NN (score_cur NN st) in
+    mkOst (params NN st) (handles NN st) (score_cur NN st)
+          (fst (fst (snd r))) (snd (snd r)) (snd (fst (snd r))) (snd hd) (fst hd)
+          (N.succ (loops_done NN st)) 0%N (calls NN st)
+          (orb (fst r) (N.leb (gen_loops NN c) (N.succ (loops_done NN st)))) (fst r) false.
+
+  Definition src_advance (c : cfg NN) (st : ost NN) (d : draw NN) : ost NN :=
+    if fin NN st then st
+    else let st1 := src_mc_step c st d in
+         if bad_index NN st1 then st1
+         else if N.eqb (j NN st1) (gen_inner_count NN c) then src_end_loop c st1 else st1.
+
+  Definition src_init (c : cfg NN) (ps : list T) (hs : list (handle NN)) (s0 : T) : ost NN :=
+    mkOst ps hs s0 (fst (gen_init NN c)) (snd (gen_init NN c)) gen_init_count 0%N s0 0%N 0%N 1%N
+          (N.eqb (gen_loops NN c) 0) false false.
+
+  Definition src_optimise (c : cfg NN) (ps : list T) (hs : list (handle NN)) (draws : list (draw NN)) : outcome NN :=
+    match score 0%N ps with
+    | None => PanicInvalidInput NN
+    | Some s0 =>
+        let st := fold_left (src_advance c) draws (src_init c ps hs s0) in
+        if bad_index NN st then PanicBadIndex NN
+        else if negb (fin NN st) then OutOfDraws NN
+        else if converged NN st then Returned NN st
+        else if gen_final_ok NN (score (calls NN st) (params NN st)) then Returned NN st else PanicFinalInvalid NN
+    end.
+
+  Lemma src_advance_is_advance : forall c st d, src_advance c st d = advance NN fexp score c st d.
+  Proof.
+    intros c st d. unfold src_advance, advance.
+    assert (E : src_mc_step c st d = mc_step NN fexp score c st d) by (unfold src_mc_step; now rewrite mc_step_is_source).
+    rewrite E. destruct (fin NN st); [reflexivity|]. cbv zeta.
+    destruct (bad_index NN (mc_step NN fexp score c st d)); [reflexivity|].
+    change (gen_inner_count NN c) with (inner NN c).
+    destruct (N.eqb (j NN (mc_step NN fexp score c st d)) (inner NN c)); [|reflexivity].
+    unfold src_end_loop. rewrite end_loop_is_source. reflexivity.
+  Qed.
+
+  Lemma src_run_is_run : forall c draws st,
+    fold_left (src_advance c) draws st = run NN fexp score c st draws.
+  Proof.
+    intros c draws. unfold run. induction draws as [|d ds IH]; intros st; [reflexivity|].
+    cbn [fold_left]. rewrite src_advance_is_advance. apply IH.
+  Qed.
+
+  Theorem optimise_state_is_the_source_pieces : forall c ps hs draws,
+    optimise NN fexp score c ps hs draws = src_optimise c ps hs draws.
+  Proof.
+    intros c ps hs draws. unfold optimise, src_optimise.
+    destruct (score 0%N ps) as [s0|]; [|reflexivity].
+    assert (E : run NN fexp score c (init NN c ps hs s0) draws = fold_left (src_advance c) draws (src_init c ps hs s0)).
+    { unfold run. change (src_init c ps hs s0) with (init NN c ps hs s0).
+      generalize (init NN c ps hs s0). induction draws as [|d ds IH]; intros st; [reflexivity|].
+      cbn [fold_left]. rewrite src_advance_is_advance. apply IH. }
+    rewrite E. cbv zeta.
+    destruct (bad_index NN _); [reflexivity|]. destruct (negb (fin NN _)); [reflexivity|].
+    destruct (converged NN _); [reflexivity|].
+    unfold gen_final_ok. destruct (score _ _); reflexivity.
+  Qed.
 End Source.
